@@ -72,10 +72,14 @@ def lanczos(
      2. allow krylov results to store lanczos_vectors and T
     """
     converged = False
-    lanczos_vectors = [v / v.norm()]
     T = torch.zeros(
         max_krylov_dim + 2, max_krylov_dim + 2, dtype=v.dtype, device=v.device
     )
+    if v.norm() == 0:
+        # Nothing to decompose (e.g. an upstream gradient that is exactly zero):
+        # normalising would turn every vector into nan and never converge.
+        return [v], T[:1, :1]
+    lanczos_vectors = [v / v.norm()]
 
     for j in range(max_krylov_dim):
         w = op(lanczos_vectors[-1])
